@@ -418,6 +418,22 @@ let run_merger toks =
       | Merger.RBytes b -> hex_of_bytes b | Merger.RInt z -> "i:" ^ hex_of_z z | Merger.RErr e -> "e:" ^ err_name e) res)
   | _ -> failwith "merger args"
 
+(* posreader <datahex> ops (r,n / s,off,wh / t)  ->  results: a handle with a position of its own over `data` (_ReaderOpenFileBase) *)
+let run_posreader toks =
+  match toks with
+  | data :: ops ->
+    let d = bytes_of_hex data in
+    let u = PosReader.pr_ops (Prelude.len d) (PosReader.rof_fetch d) in
+    let rec go s ops acc = match ops with
+      | [] -> Stdlib.List.rev acc
+      | o :: r -> (match String.split_on_char ',' o with
+          | ["r"; n] -> (match u.f_read s (z_of_hex n) with Ok (b, s') -> go s' r (hex_of_bytes b :: acc) | Err e -> go s r (("e:" ^ err_name e) :: acc))
+          | ["s"; off; w] -> (match u.f_seek s (z_of_hex off) (z_of_hex w) with Ok (p, s') -> go s' r (("i:" ^ hex_of_z p) :: acc) | Err e -> go s r (("e:" ^ err_name e) :: acc))
+          | ["t"] -> go s r (("i:" ^ hex_of_z (u.f_tell s)) :: acc)
+          | _ -> failwith "posreader op") in
+    String.concat " " (go { PosReader.pr_pos = Z0 } ops [])
+  | _ -> failwith "posreader args"
+
 (* ---- C20: hand-modelled codecs ------------------------------------------------ *)
 let run_codec toks =
   match toks with
@@ -433,6 +449,16 @@ let run_codec toks =
       let db = Codecs.seeddb_load (bytes_of_hex d) [] in
       String.concat "," (Stdlib.List.map (fun (k, v) -> hex_of_z k ^ ":" ^ (let h = hex_of_bytes v in String.sub h 2 (String.length h - 2))) db)
       ^ " " ^ hex_of_bytes (Codecs.seeddb_save db)
+  | ["cfgsave"; table; d] ->
+      (* table: id:flags:size,... (KNOWN_BLOCKS of the module under test); d: a 0x8000-byte image.  -> loaded blocks, re-serialised image *)
+      let tbl = if table = "-" then [] else Stdlib.List.map (fun t -> match String.split_on_char ':' t with
+        | [i; f; z] -> (z_of_hex i, (z_of_hex f, z_of_hex z)) | _ -> failwith "known") (String.split_on_char ',' table) in
+      let known id = (try Some (Stdlib.List.assoc id tbl) with Not_found -> None) in
+      (match CfgSave.cfg_load known (bytes_of_hex d) with
+       | Err e -> "e:" ^ err_name e
+       | Ok bs -> String.concat "," (Stdlib.List.map (fun b -> hex_of_z b.CfgSave.b_id ^ ":" ^ hex_of_z b.CfgSave.b_flags ^ ":" ^
+                                       (let h = hex_of_bytes b.CfgSave.b_data in String.sub h 2 (String.length h - 2))) bs)
+                  ^ " " ^ (match CfgSave.cfg_bytes bs with Ok r -> hex_of_bytes r | Err e -> "e:" ^ err_name e))
   | _ -> failwith "codec args"
 
 let dispatch (line : string) : string =
@@ -459,6 +485,7 @@ let dispatch (line : string) : string =
   | "lzss" :: toks -> run_lzss toks
   | "sched" :: toks -> run_sched toks
   | "merger" :: toks -> run_merger toks
+  | "posreader" :: toks -> run_posreader toks
   | "codec" :: toks -> run_codec toks
   | "nandinfer" :: toks -> run_nandinfer toks
   | e :: _ -> failwith ("unknown entry " ^ e)
